@@ -12,14 +12,14 @@
 //!       * the filter builder is awaited (every main-chain block has a filter hash), then every expected script hash
 //!         (outputs and spent inputs, from the history's transactions) must match the GCS filter and the hash chain is recomputed.
 //! `c19 race`  the snapshot / live-store interleaving of the filter builder placed deterministically with the H8 yield point.
-use ckb_merkle_mountain_range::{leaf_index_to_mmr_size, leaf_index_to_pos, util::MemStore, MMRStore, MMR};
+use ckb_merkle_mountain_range::{leaf_index_to_mmr_size, leaf_index_to_pos};
 use ckb_store::ChainStore;
 use ckb_types::prelude::*;
 use ckb_types::{
     bytes::Bytes,
-    core::{BlockView, Capacity, TransactionBuilder, TransactionView},
+    core::{BlockView, Capacity, HeaderView, TransactionBuilder, TransactionView},
     packed::{self, Byte32, CellInput, CellOutput, OutPoint},
-    utilities::{difficulty_to_compact, merkle_mountain_range::MergeHeaderDigest},
+    utilities::difficulty_to_compact,
     U256,
 };
 use ckb_verification_traits::Switch;
@@ -58,6 +58,9 @@ struct Step {
     txs: Vec<usize>,
     /// expected after the arrival
     main: Vec<usize>,
+    /// timestamp gap to the parent in ms (0 = the fixture's block interval)
+    #[serde(default)]
+    gap_ms: u64,
 }
 #[derive(Deserialize, Clone, Debug)]
 struct Hist {
@@ -73,6 +76,13 @@ struct Input {
     seed: u64,
     /// all position subsets up to this many leaves, random subsets above
     all_subsets_upto: u64,
+    /// > 0: epochs of this many blocks with REAL difficulty adjustment (timestamps decide); the epoch check stays on
+    #[serde(default)]
+    epoch_len: u64,
+    /// the expected main chain is derived from the headers' real difficulties by the spec's rule (strictly heavier
+    /// chain wins, first seen stays on a tie); only for histories without flawed blocks
+    #[serde(default)]
+    main_by_difficulty: bool,
 }
 
 const CKB: u64 = 100_000_000;
@@ -90,7 +100,11 @@ struct World {
 }
 
 fn world(inp: &Input) -> World {
-    let p = Params { genesis_cells: inp.genesis_txs.len(), window: (1, 1), ..Default::default() };
+    let mut p = Params { genesis_cells: inp.genesis_txs.len(), window: (1, 1), ..Default::default() };
+    if inp.epoch_len > 0 {
+        p.epoch_len = inp.epoch_len;
+        p.permanent_difficulty = false;
+    }
     let consensus = consensus(&p);
     let scripts: HashMap<String, packed::Script> = inp.scripts.iter().map(|(k, v)| (k.clone(), script_of(v))).collect();
     let mut txs: Vec<Option<TransactionView>> = vec![None; inp.txs.len() + 1];
@@ -116,8 +130,11 @@ fn world(inp: &Input) -> World {
     World { consensus, txs }
 }
 
+/// heavier blocks are made by overriding the compact target, hence the epoch check is off in that setting;
+/// with real difficulty adjustment (`adjust`) it stays on
+static ADJUST: std::sync::atomic::AtomicBool = std::sync::atomic::AtomicBool::new(false);
 fn sw_node() -> Switch {
-    Switch::DISABLE_EPOCH | Switch::DISABLE_TWO_PHASE_COMMIT
+    if ADJUST.load(std::sync::atomic::Ordering::SeqCst) { Switch::DISABLE_TWO_PHASE_COMMIT } else { Switch::DISABLE_EPOCH | Switch::DISABLE_TWO_PHASE_COMMIT }
 }
 
 /// deliver through the asynchronous entry (never blocks on an orphan); Some(result) or None on time-out
@@ -156,20 +173,91 @@ fn chain_of(blocks: &HashMap<usize, Blk>, mut b: usize) -> Vec<usize> {
     v
 }
 
-/// in-memory MMR over the headers of `chain` (block ids), same merge function
-fn model_mmr(blocks: &HashMap<usize, Blk>, chain: &[usize]) -> MemStore<packed::HeaderDigest> {
-    let store = MemStore::default();
-    {
-        let mut mmr = MMR::<packed::HeaderDigest, MergeHeaderDigest, _>::new(0, &store);
-        for b in chain {
-            mmr.push(blocks[b].view.digest()).expect("model mmr push");
-        }
-        mmr.commit().expect("model mmr commit");
-    }
-    store
+/// INDEPENDENT reference for the chain-root MMR (RFC 0044): the digest of a node is recomputed field by field from
+/// the headers of the MODEL's chain, without `MergeHeaderDigest::merge`, `HeaderView::digest` or the MMR library:
+/// start_* from the leftmost header below the node, end_* from the rightmost, total difficulty = sum,
+/// children_hash = blake2b(left.hash | right.hash) (leaf: the header hash).
+fn ref_leaf(h: &HeaderView) -> packed::HeaderDigest {
+    let raw = h.data().raw();
+    packed::HeaderDigest::new_builder()
+        .children_hash(h.hash())
+        .total_difficulty(ckb_types::utilities::compact_to_difficulty(raw.compact_target().into()))
+        .start_number(raw.number())
+        .end_number(raw.number())
+        .start_epoch(raw.epoch())
+        .end_epoch(raw.epoch())
+        .start_timestamp(raw.timestamp())
+        .end_timestamp(raw.timestamp())
+        .start_compact_target(raw.compact_target())
+        .end_compact_target(raw.compact_target())
+        .build()
 }
-fn model_root(store: &MemStore<packed::HeaderDigest>, n: u64) -> packed::HeaderDigest {
-    MMR::<packed::HeaderDigest, MergeHeaderDigest, _>::new(leaf_index_to_mmr_size(n), store).get_root().expect("model root")
+fn ref_merge(l: &packed::HeaderDigest, r: &packed::HeaderDigest) -> packed::HeaderDigest {
+    let mut buf = l.calc_mmr_hash().raw_data().to_vec();
+    buf.extend_from_slice(&r.calc_mmr_hash().raw_data());
+    let hash = ckb_hash::blake2b_256(&buf);
+    let (a, b): (U256, U256) = (l.total_difficulty().into(), r.total_difficulty().into());
+    packed::HeaderDigest::new_builder()
+        .children_hash(Byte32::from_slice(&hash).unwrap())
+        .total_difficulty(a + b)
+        .start_number(l.start_number())
+        .start_epoch(l.start_epoch())
+        .start_timestamp(l.start_timestamp())
+        .start_compact_target(l.start_compact_target())
+        .end_number(r.end_number())
+        .end_epoch(r.end_epoch())
+        .end_timestamp(r.end_timestamp())
+        .end_compact_target(r.end_compact_target())
+        .build()
+}
+/// peaks of an MMR with `leaves` leaves, left to right: (position, height, first leaf)
+fn ref_peaks(leaves: u64) -> Vec<(u64, u32, u64)> {
+    let (mut off, mut first, mut v) = (0u64, 0u64, vec![]);
+    for h in (0..63u32).rev() {
+        if leaves & (1 << h) != 0 {
+            let size = (1u64 << (h + 1)) - 1;
+            v.push((off + size - 1, h, first));
+            off += size;
+            first += 1 << h;
+        }
+    }
+    v
+}
+struct RefMmr {
+    headers: Vec<HeaderView>,
+    nodes: HashMap<u64, packed::HeaderDigest>,
+}
+impl RefMmr {
+    fn new(blocks: &HashMap<usize, Blk>, chain: &[usize]) -> RefMmr {
+        RefMmr { headers: chain.iter().map(|b| blocks[b].view.header()).collect(), nodes: HashMap::new() }
+    }
+    fn node(&mut self, pos: u64, h: u32, first: u64) -> packed::HeaderDigest {
+        if let Some(d) = self.nodes.get(&pos) {
+            return d.clone();
+        }
+        let d = if h == 0 {
+            ref_leaf(&self.headers[first as usize])
+        } else {
+            let l = self.node(pos - (1 << h), h - 1, first);
+            let r = self.node(pos - 1, h - 1, first + (1 << (h - 1)));
+            ref_merge(&l, &r)
+        };
+        self.nodes.insert(pos, d.clone());
+        d
+    }
+    /// root over the leaves 0..=n (peaks bagged from the right, header order kept)
+    fn root(&mut self, n: u64) -> packed::HeaderDigest {
+        let pk = ref_peaks(n + 1);
+        let mut ds: Vec<packed::HeaderDigest> = pk.iter().map(|(p, h, f)| self.node(*p, *h, *f)).collect();
+        let mut acc = ds.pop().unwrap();
+        while let Some(l) = ds.pop() {
+            acc = ref_merge(&l, &acc);
+        }
+        acc
+    }
+}
+fn crosses_adjustment(d: &packed::HeaderDigest) -> bool {
+    d.start_compact_target().as_slice() != d.end_compact_target().as_slice()
 }
 
 fn subsets(n: u64, all_upto: u64, rng: &mut Rng) -> Vec<Vec<u64>> {
@@ -212,6 +300,40 @@ fn expected_script_hashes(w: &World, blocks: &HashMap<usize, Blk>, b: usize, all
         }
     }
     v
+}
+
+/// named vacuity case: an input spends a TYPED cell, an earlier input of the block has the same lock, and that
+/// type script occurs nowhere else in the block (no output, no earlier input)
+fn typed_inputs_under_repeated_lock(b: &BlockView, all_txs: &HashMap<Byte32, TransactionView>) -> u64 {
+    let mut out_types: HashSet<Byte32> = HashSet::new();
+    for tx in b.transactions() {
+        for o in tx.outputs() {
+            if let Some(t) = o.type_().to_opt() {
+                out_types.insert(t.calc_script_hash());
+            }
+        }
+    }
+    let (mut locks, mut in_types, mut n) = (HashSet::new(), HashSet::new(), 0u64);
+    for tx in b.transactions() {
+        if tx.is_cellbase() {
+            continue;
+        }
+        for inp in tx.input_pts_iter() {
+            let idx: usize = inp.index().into();
+            if let Some(o) = all_txs.get(&inp.tx_hash()).and_then(|p| p.outputs().get(idx)) {
+                let lh = o.calc_lock_hash();
+                let th = o.type_().to_opt().map(|t| t.calc_script_hash());
+                if let Some(th) = &th {
+                    if locks.contains(&lh) && !out_types.contains(th) && !in_types.contains(th) {
+                        n += 1;
+                    }
+                    in_types.insert(th.clone());
+                }
+                locks.insert(lh);
+            }
+        }
+    }
+    n
 }
 
 fn filter_matches(f: &packed::Bytes, h: &Byte32) -> bool {
@@ -260,6 +382,8 @@ struct Stats {
     input_script_hashes: u64,
     mismatches: u64,
     renotified: u64,
+    digests_across_adjustment: u64,
+    typed_input_under_repeated_lock: u64,
 }
 
 fn chain_cmd(inp: &Input) {
@@ -269,8 +393,12 @@ fn chain_cmd(inp: &Input) {
     let mut rng = Rng::new(inp.seed);
     let mut tool_errors: Vec<String> = vec![];
     let heavy = difficulty_to_compact(U256::from(6u64));
+    ADJUST.store(inp.epoch_len > 0, std::sync::atomic::Ordering::SeqCst);
     let base = tmp_entries();
     'hist: for hist in &inp.hists {
+        let mut td: HashMap<usize, U256> = HashMap::new();
+        td.insert(0, c.genesis_block().difficulty());
+        let mut exp_main: Vec<usize> = vec![0];
         sweep(&base);
         let n = Node::start(&NodeCfg { assembler: false, ..NodeCfg::temp(c) });
         ckb_block_filter::filter::BlockFilter::new(n.shared.clone()).start();
@@ -307,7 +435,8 @@ fn chain_cmd(inp: &Input) {
                 }
             };
             let commits: Vec<TransactionView> = s.txs.iter().map(|t| w.txs[*t].clone().unwrap()).collect();
-            let view = match assemble(&builders[bi].1, &BlockSpec { commits, nonce: s.b as u64, ..Default::default() }) {
+            let ts = if s.gap_ms > 0 { blocks[&s.parent].view.timestamp() + s.gap_ms } else { 0 };
+            let view = match assemble(&builders[bi].1, &BlockSpec { commits, nonce: s.b as u64, ts, ..Default::default() }) {
                 Ok(v) => v,
                 Err(e) => {
                     tool_errors.push(format!("hist {} cannot assemble block {}: {}", hist.id, s.b, e));
@@ -341,15 +470,21 @@ fn chain_cmd(inp: &Input) {
             st.steps += 1;
             let snap = n.shared.cloned_snapshot();
             let real_main: Vec<Option<usize>> = (0..=snap.tip_number()).map(|h| snap.get_block_hash(h).and_then(|x| ids.get(&x).copied())).collect();
-            let want_main: Vec<Option<usize>> = s.main.iter().map(|x| Some(*x)).collect();
+            let tdb = td[&s.parent].clone() + view.difficulty();
+            if tdb > td[exp_main.last().unwrap()] {
+                exp_main = chain_of(&blocks, s.b);
+            }
+            td.insert(s.b, tdb);
+            let smain: Vec<usize> = if inp.main_by_difficulty { exp_main.clone() } else { s.main.clone() };
+            let want_main: Vec<Option<usize>> = smain.iter().map(|x| Some(*x)).collect();
             if real_main != want_main {
-                report("main-chain", si, format!("after block {} (work {}, honest {}): node main chain {:?}, MMR.tla expects {:?}; verdict {:?}", s.b, s.work, s.honest, real_main, s.main, verdict), &mut st);
+                report("main-chain", si, format!("after block {} (work {}, honest {}): node main chain {:?}, MMR.tla expects {:?}; verdict {:?}", s.b, s.work, s.honest, real_main, smain, verdict), &mut st);
                 continue 'hist;
             }
-            if !s.honest && *s.main.last().unwrap() != s.b {
+            if !s.honest && *smain.last().unwrap() != s.b {
                 st.refused += 1;
             }
-            let new_tip = *s.main.last().unwrap();
+            let new_tip = *smain.last().unwrap();
             if new_tip != tip {
                 if blocks[&new_tip].parent != tip {
                     st.reorgs += 1;
@@ -365,14 +500,17 @@ fn chain_cmd(inp: &Input) {
                 tip = new_tip;
             }
             // ---- MMR: roots, stored positions, extensions, proofs
-            let main = &s.main;
-            let store = model_mmr(&blocks, main);
+            let main = &smain;
+            let mut refm = RefMmr::new(&blocks, main);
             let tipn = (main.len() - 1) as u64;
             for nn in 0..=tipn {
-                let want = model_root(&store, nn);
+                let want = refm.root(nn);
+                if crosses_adjustment(&want) {
+                    st.digests_across_adjustment += 1;
+                }
                 match snap.chain_root_mmr(nn).get_root() {
                     Ok(got) if got.as_slice() == want.as_slice() => {}
-                    other => report("root", si, format!("chain_root_mmr({nn}).get_root() differs from the root over the model's main chain: {:?}", other.map(|_| "other digest").map_err(|e| e.to_string())), &mut st),
+                    other => report("root", si, format!("chain_root_mmr({nn}).get_root() differs from the digest recomputed from the headers of the model's main chain: {:?}", other.map(|g| format!("{}", g)).map_err(|e| e.to_string())), &mut st),
                 }
                 st.roots += 1;
                 // the block at nn+1 commits to it
@@ -387,10 +525,18 @@ fn chain_cmd(inp: &Input) {
             }
             let size = leaf_index_to_mmr_size(tipn);
             for pos in 0..size {
-                let want = (&store).get_elem(pos).unwrap();
+                let want = refm.nodes.get(&pos).cloned();
                 let got = snap.get_header_digest(pos);
+                if want.is_none() {
+                    tool_errors.push(format!("hist {} step {}: reference MMR has no node at position {}", hist.id, si, pos));
+                }
+                if let Some(w) = &want {
+                    if crosses_adjustment(w) {
+                        st.digests_across_adjustment += 1;
+                    }
+                }
                 if want.as_ref().map(|x| x.as_slice().to_vec()) != got.as_ref().map(|x| x.as_slice().to_vec()) {
-                    report("stale-position", si, format!("position {pos} below the size {size} differs from the node of the main chain"), &mut st);
+                    report("stored-node", si, format!("position {pos} below the size {size}: stored digest {} differs from the digest recomputed from the main chain's headers {}", got.map(|g| format!("{}", g)).unwrap_or_default(), want.map(|g| format!("{}", g)).unwrap_or_default()), &mut st);
                 }
                 st.positions += 1;
             }
@@ -401,17 +547,17 @@ fn chain_cmd(inp: &Input) {
                     let ch = chain_of(&blocks, *id);
                     let h = (ch.len() - 1) as u64;
                     if h <= tipn {
-                        let sst = model_mmr(&blocks, &ch);
-                        sibling_roots.entry(h).or_default().push(model_root(&sst, h));
+                        let mut sref = RefMmr::new(&blocks, &ch);
+                        sibling_roots.entry(h).or_default().push(sref.root(h));
                     }
                 }
             }
             for nn in 0..=tipn {
-                let root = model_root(&store, nn);
+                let root = refm.root(nn);
                 let mmr = snap.chain_root_mmr(nn);
                 for set in subsets(nn, inp.all_subsets_upto, &mut rng) {
                     let positions: Vec<u64> = set.iter().map(|i| leaf_index_to_pos(*i)).collect();
-                    let leaves: Vec<(u64, packed::HeaderDigest)> = set.iter().map(|i| (leaf_index_to_pos(*i), blocks[&main[*i as usize]].view.digest())).collect();
+                    let leaves: Vec<(u64, packed::HeaderDigest)> = set.iter().map(|i| (leaf_index_to_pos(*i), ref_leaf(&blocks[&main[*i as usize]].view.header()))).collect();
                     match mmr.gen_proof(positions.clone()) {
                         Ok(proof) => {
                             st.proofs += 1;
@@ -461,6 +607,7 @@ fn chain_cmd(inp: &Input) {
                 parent_fh = fh;
                 st.filters += 1;
                 let hashes = expected_script_hashes(&w, &blocks, *b, &all_txs);
+                st.typed_input_under_repeated_lock += typed_inputs_under_repeated_lock(&blocks[b].view, &all_txs);
                 let n_out: usize = blocks[b].view.transactions().iter().map(|t| t.outputs().into_iter().map(|o| 1 + o.type_().to_opt().is_some() as usize).sum::<usize>()).sum();
                 st.input_script_hashes += (hashes.len() - n_out) as u64;
                 for hsh in hashes {
@@ -481,7 +628,7 @@ fn chain_cmd(inp: &Input) {
     println!("{}", json!({"summary": {"histories": inp.hists.len(), "steps": st.steps, "reorgs": st.reorgs, "reorgs_deeper_than_1": st.deep, "reorgs_to_shorter_heavier": st.shorter_heavier,
         "flawed_refused": st.refused, "roots": st.roots, "positions": st.positions, "extensions": st.extensions, "proofs": st.proofs,
         "proofs_rejected_on_sibling": st.proofs_rejected_on_sibling, "filters": st.filters, "script_hashes": st.script_hashes,
-        "input_script_hashes": st.input_script_hashes, "renotified": st.renotified, "mismatches": st.mismatches, "tool_errors": tool_errors.len()}}));
+        "input_script_hashes": st.input_script_hashes, "renotified": st.renotified, "digests_across_adjustment": st.digests_across_adjustment, "typed_input_under_repeated_lock": st.typed_input_under_repeated_lock, "mismatches": st.mismatches, "tool_errors": tool_errors.len()}}));
 }
 
 /// The snapshot / live-store interleaving, placed with the H8 yield point:
